@@ -182,3 +182,61 @@ func init() {
 		return Iface{}
 	})
 }
+
+func init() {
+	// response cookies: http.SetCookie puts an opaque token into the
+	// Set-Cookie header (so that header clones carry it), the (name, value)
+	// pair lives in a side table; (*http.Response).Cookies reads them back.
+	reg("net/http.SetCookie", func(ex *Exec, fr *frame, fn *ssa.Function, args []Value) Value {
+		w := args[0].(Iface)
+		c := args[1].(*Value)
+		if w.t == nil || c == nil {
+			ex.goPanic("nil pointer dereference (SetCookie)")
+		}
+		st := (*c).(Struct)
+		ex.stub("HTTP response cookies: (name,value) pairs behind an opaque Set-Cookie token (cookie syntax and sanitising are net/http's job)")
+		hdr, _ := ex.callMethod(fr, w, "Header").(*Map)
+		n, _ := ex.pathState["setcookie-count"].(int)
+		ex.pathState["setcookie-count"] = n + 1
+		tok := fmt.Sprintf("~ck%d~", n)
+		ex.pathState["setcookie:"+tok] = cookieRec{name: st[0].(Str), value: st[1].(Str)}
+		var vals []Value
+		if e := ex.mapFind(hdr, mkStr("Set-Cookie")); e != nil {
+			vals = append(vals, e.v.(Slice).a...)
+		}
+		vals = append(vals, mkStr(tok))
+		ex.mapUpdate(hdr, mkStr("Set-Cookie"), Slice{vals})
+		return nil
+	})
+	reg("(*net/http.Response).Cookies", func(ex *Exec, fr *frame, fn *ssa.Function, args []Value) Value {
+		r := args[0].(*Value)
+		if r == nil {
+			ex.goPanic("nil *http.Response")
+		}
+		hdr, _ := (*r).(Struct)[5].(*Map)
+		var out []Value
+		if e := ex.mapFind(hdr, mkStr("Set-Cookie")); e != nil {
+			ct := fn.Pkg.Type("Cookie").Type()
+			for _, v := range e.v.(Slice).a {
+				tok, ok := v.(Str).concrete()
+				if !ok {
+					ex.unsupported("symbolic Set-Cookie header")
+				}
+				rec, ok := ex.pathState["setcookie:"+tok].(cookieRec)
+				if !ok {
+					ex.unsupported("Set-Cookie header not written by http.SetCookie: %q", tok)
+				}
+				var cv Value = zero(ct)
+				cs := cv.(Struct)
+				cs[0], cs[1] = rec.name, rec.value
+				p := new(Value)
+				*p = cs
+				out = append(out, p)
+			}
+		}
+		if out == nil {
+			return Slice{}
+		}
+		return Slice{out}
+	})
+}
